@@ -434,6 +434,12 @@ def run(ctx: Ctx) -> None:
                         for a in atoms:
                             if _rra in unparse(a):
                                 outs += [x for x in o if x.ast is a]
+                    # ... or the inverted form: the path is returned under the outcome "it is in the resolved references" (`if p in resolved: return p`, then the raise)
+                    for b in cfg.nodes:
+                        if b.kind == "branch" and isinstance(b.ast, ast.Compare) and len(b.ast.ops) == 1 and _rra in unparse(b.ast.comparators[0]) \
+                                and any(b.ast is y for y in ast.walk(n)):
+                            if (isinstance(b.ast.ops[0], ast.In) and b.label == "T") or (isinstance(b.ast.ops[0], ast.NotIn) and b.label == "F"):
+                                outs.append(b)
                     desc = "a load is accepted only if its path is already resolved when the load is visited (ordering in program order)"
                     w = dominated(ctx, f, r, outs) if outs else ["no `raise DDSException` guarded by a membership test in resolved_references precedes the return of the loaded path"]
                     if w is None:
